@@ -26,7 +26,7 @@ UNIT_TIMEOUT = int(os.environ.get("VMC_UNIT_TIMEOUT", "900"))
 ALL_IDS = ["C%02d" % i for i in range(1, 21)]
 
 
-class UnitTimeout(Exception):
+class UnitTimeout(BaseException):
     pass
 
 
